@@ -358,9 +358,39 @@ func bitGetter(g *ssa.Function, bit uint, width int) (bool, string) {
 
 // bitSetter follows the path selected by the boolean parameter and returns the vector left in *f.
 func bitSetter(f *ssa.Function, val bool, width int) (bitvec, string) {
-	recv, bparam := f.Params[0], f.Params[1]
-	mem := inVec()
+	return bitSetterIn(f, inVec(), map[ssa.Value]bool{f.Params[1]: val}, map[ssa.Value]bitvec{}, width, 0)
+}
+
+// bitSetterIn evaluates fn (receiver pointer = first parameter) starting from the given contents of *recv, with
+// known boolean and vector parameters; a call to another method on the same receiver is followed.
+func bitSetterIn(f *ssa.Function, mem bitvec, bools map[ssa.Value]bool, vecs map[ssa.Value]bitvec, width, depth int) (bitvec, string) {
+	if depth > 2 {
+		return mem, "setter helpers nested too deep"
+	}
+	recv := f.Params[0]
 	e := &bitEval{vals: map[ssa.Value]bitvec{}, width: width}
+	for v, x := range vecs {
+		e.vals[v] = x
+	}
+	boolOf := func(v ssa.Value) (bool, bool) {
+		if b, ok := bools[v]; ok {
+			return b, true
+		}
+		if u, ok := v.(*ssa.UnOp); ok && u.Op == token.NOT {
+			if b, ok := bools[u.X]; ok {
+				return !b, true
+			}
+		}
+		if k, ok := v.(*ssa.Const); ok && k.Value != nil {
+			switch k.Value.String() {
+			case "true":
+				return true, true
+			case "false":
+				return false, true
+			}
+		}
+		return false, false
+	}
 	blk := f.Blocks[0]
 	for steps := 0; steps < 50; steps++ {
 		for _, in := range blk.Instrs {
@@ -379,18 +409,11 @@ func bitSetter(f *ssa.Function, val bool, width int) (bitvec, string) {
 				}
 				mem = v
 			case *ssa.If:
-				if x.Cond != ssa.Value(bparam) {
-					if u, ok := x.Cond.(*ssa.UnOp); ok && u.Op == token.NOT && u.X == ssa.Value(bparam) {
-						if !val {
-							blk = blk.Succs[0]
-						} else {
-							blk = blk.Succs[1]
-						}
-						goto next
-					}
+				b, ok := boolOf(x.Cond)
+				if !ok {
 					return mem, "branch on something other than the value parameter"
 				}
-				if val {
+				if b {
 					blk = blk.Succs[0]
 				} else {
 					blk = blk.Succs[1]
@@ -401,7 +424,31 @@ func bitSetter(f *ssa.Function, val bool, width int) (bitvec, string) {
 				goto next
 			case *ssa.Return:
 				return mem, ""
-			case *ssa.Call, *ssa.Panic, *ssa.Go, *ssa.Defer:
+			case *ssa.Call:
+				// a helper method on the same receiver: setBit(bit, value)
+				g := x.Call.StaticCallee()
+				if g == nil || g.Blocks == nil || len(x.Call.Args) == 0 || x.Call.Args[0] != ssa.Value(recv) || len(g.Params) != len(x.Call.Args) {
+					return mem, "setter calls or panics"
+				}
+				gb, gv := map[ssa.Value]bool{}, map[ssa.Value]bitvec{}
+				for i := 1; i < len(x.Call.Args); i++ {
+					a := x.Call.Args[i]
+					if b, ok := boolOf(a); ok {
+						gb[g.Params[i]] = b
+						continue
+					}
+					v, ok := e.vec(a)
+					if !ok {
+						return mem, "setter passes a value to a helper that is neither the flag parameter nor a bit constant"
+					}
+					gv[g.Params[i]] = v
+				}
+				var why string
+				mem, why = bitSetterIn(g, mem, gb, gv, width, depth+1)
+				if why != "" {
+					return mem, why
+				}
+			case *ssa.Panic, *ssa.Go, *ssa.Defer:
 				return mem, "setter calls or panics"
 			}
 		}
